@@ -295,6 +295,20 @@ class TimedList(Generic[Item]):
     def deepcopy(self):
         return deepcopy(self)
 
+    def __deepcopy__(self, memo):
+        # DataFrame.copy(deep=True) does not copy Python objects held in cells
+        # (e.g. Quaver keysound lists), so a "deep" copy would still share them.
+        this = self.__class__.__new__(self.__class__)
+        memo[id(self)] = this
+        df = self.df.copy(deep=True)
+        for col in df.columns[df.dtypes == object]:
+            df[col] = pd.Series(
+                [deepcopy(v, memo) for v in df[col]], index=df.index, dtype=object
+            )
+        this.__dict__.update({k: deepcopy(v, memo) for k, v in self.__dict__.items() if k != "_df"})
+        this.df = df
+        return this
+
     def describe(self) -> pd.DataFrame:
         return self.df.describe()
 
